@@ -87,3 +87,13 @@ Example c39_early_example :
   early s (0, 1000 + 29 * ns_per_s) /\ early s (1, 2000 + 30 * ns_per_s - 1).
 Proof. cbv [early]. cbn [Z.eqb]. rewrite !(proj1 (mutual_intervals 3 7 30 30 1000 2000)).
   destruct (mutual_intervals 3 7 30 30 1000 2000) as [_ [Hb [Hla Hlb]]]. rewrite Hb, Hla, Hlb. vm_compute. auto. Qed.
+
+(* the re-establishment branch does work: after ANY schedule, once both ends take the peer's handshake again (each past
+   its cool-down) they hold one key again *)
+Theorem c39_rehandshake_reestablishes : forall a b ia ib hsa hsb ops ta tb, 0 <= a < two32 -> 0 <= b < two32 ->
+  let s := run_ops (mutual a b ia ib hsa hsb) ops in
+  e_cooldown (s_a s) * ns_per_s <= ta - e_last_hs (s_a s) ->
+  e_cooldown (s_b s) * ns_per_s <= tb - e_last_hs (s_b s) ->
+  keys_agree (run_ops s [(2, ta); (3, tb)]) = true.
+Proof. exact rehandshake_reestablishes. Qed.
+Print Assumptions c39_rehandshake_reestablishes.
